@@ -100,13 +100,16 @@ class ExonCorrector:
 
     def correct_misalignments(self, alignment_info, read_assignment):
         event_map = {}
+        # isoform micro introns retained inside a read exon, by the index of that exon, i.e. of the read intron
+        # that follows it (len(read_introns) for the last exon); one exon may retain several of them
+        retained_micro_introns = {}
         for e in read_assignment.isoform_matches[0].match_subclassifications:
             if e.read_region == SupplementaryMatchConstants.undefined_region:
                 continue
             if e.read_region[0] == SupplementaryMatchConstants.absent_position:
                 if e.event_type == MatchEventSubtype.fake_micro_intron_retention and \
                         self.params.correct_microintron_retention:
-                    event_map[-e.read_region[1]-1] = e
+                    retained_micro_introns.setdefault(e.read_region[1], []).append(e.isoform_region[0])
             else:
                 event_map[e.read_region[0]] = e
 
@@ -116,9 +119,11 @@ class ExonCorrector:
         isoform_id = read_assignment.isoform_matches[0].assigned_transcript
         isoform_region = self.gene_info.transcript_region(isoform_id)
         isoform_introns = self.gene_info.all_isoforms_introns[isoform_id]
-        return self.process_events(alignment_info, event_map, read_region, read_introns,  isoform_region, isoform_introns)
+        return self.process_events(alignment_info, event_map, read_region, read_introns,  isoform_region, isoform_introns,
+                                   retained_micro_introns)
 
-    def process_events(self, alignment_info, event_map, read_region, read_introns, isoform_region, isoform_introns):
+    def process_events(self, alignment_info, event_map, read_region, read_introns, isoform_region, isoform_introns,
+                       retained_micro_introns):
         if self.params.correct_fuzzy_junctions:
             # logger.debug("*** Correcting fuzzy junctions")
             potential_introns = self.intron_profile_constructor.match_genomic_features(read_introns)
@@ -168,10 +173,8 @@ class ExonCorrector:
         i = 0
 
         while i < len(corrected_introns):
-            if -i-1 in event_map:
-                # special case for fake IR
-                # logger.debug(event_map[-i-1].isoform_region)
-                new_introns.append(isoform_introns[event_map[-i-1].isoform_region[0]])
+            # special case for fake IR: micro introns retained in the read exon before read intron i
+            new_introns += [isoform_introns[j] for j in retained_micro_introns.get(i, [])]
 
             if i not in event_map:
                 # TODO: check for reliability of splice sites
@@ -229,6 +232,8 @@ class ExonCorrector:
 
             i = event.read_region[1] + 1
 
+        # ... and in the last read exon, which no read intron follows
+        new_introns += [isoform_introns[j] for j in retained_micro_introns.get(len(corrected_introns), [])]
         return corrected_read_region, new_introns
 
 
